@@ -416,6 +416,13 @@ def predicates(ctx: Ctx) -> None:
         ctx.stats.case({"stream": "predicate-corpus", "name": name}, True)
         if r:
             ctx.fail(r[0], r[1], {"spec": to_hex(spec), "suffix": ".p", "path": ""})
+    for suffix in (".gz", ".bz2", ".xz", ""):
+        for name, (n, edges, k, hist) in corpus[-3:]:
+            spec = spec_network(random.Random(11), n, edges, k, hist)
+            r = predicate(spec, suffix, "")
+            ctx.stats.case({"stream": "predicate-corpus-suffix", "name": name, "suffix": suffix}, True)
+            if r:
+                ctx.fail(r[0], r[1], {"spec": to_hex(spec), "suffix": suffix, "path": ""})
     count = ctx.scale(60, 400) * (5 if getattr(ctx, "deep_search", False) else 1)
     for i in range(count):
         n = rng.choice([1, 1, 2, 2, 3, 4, 6, 9])
@@ -423,7 +430,8 @@ def predicates(ctx: Ctx) -> None:
         edges = rng.sample(allpairs, min(len(allpairs), rng.choice([0, 1, 1, 2, 3, 5])))
         hist = [(rng.randrange(n), rng.randrange(n)) for _ in range(rng.choice([0, 0, 1, 2, 4]))]
         spec = spec_network(rng, n, edges, rng.choice([1, 1, 2, 3, 5]), hist)
-        suffix, path = rng.choice(["", ".p", "_b"]), rng.choice(["", "", "pd/"])
+        # numpy's text I/O (de)compresses transparently on these suffixes, so they are legitimate names too
+        suffix, path = rng.choice(["", ".p", "_b", ".p", "_b", ".gz", ".r2.bz2", ".xz"]), rng.choice(["", "", "pd/"])
         r = predicate(spec, suffix, path)
         ctx.stats.case({"stream": "predicate-random", "n": n, "m": len(edges), "k": spec["k"], "h": len(hist)}, True)
         if r:
